@@ -19,6 +19,6 @@ d=open('/verif/DESIGN.md').read()
 if '<!-- seed-table:begin -->' in d:
     d=re.sub(r'<!-- seed-table:begin -->.*?<!-- seed-table:end -->\n', lambda _: block, d, flags=re.S)
 else:
-    d=re.sub(r'\d+ seeded defects are kept.*?\n(\| [^\n]*\n)+', lambda _: block, d, count=1, flags=re.S)
+    d=re.sub(r'\d+ seeded defects are kept.*?\n(\|[^\n]*\n)+', lambda _: block, d, count=1, flags=re.S)
 open('/verif/DESIGN.md','w').write(d)
 print(n,caught)
